@@ -89,6 +89,23 @@ def twins():
     out["tsx-jsx"] = ({"a/mod.py": py, "a/mod.tsx": ts, "a/mod.rs": rs, "a/mod.jsx": js, cfg: t[cfg]}, {"a/mod.tsx": "a/mod.ts", "a/mod.jsx": "a/mod.js"})
     out["shebang"] = ({"a/mod": "#!/usr/bin/env python3\n" + py, "a/mod.ts": ts, "a/mod.rs": rs, "a/mod.js": js, cfg: t[cfg]}, {"a/mod": "a/mod.py"})
     out["shebang-canonical"] = ({"a/mod.py": "#!/usr/bin/env python3\n" + py, "a/mod.ts": ts, "a/mod.rs": rs, "a/mod.js": js, cfg: t[cfg]}, {})
+    # the documented per-language sections (nesting / srp / dry: python, typescript, javascript, rust) belong to "analysed as <language>":
+    # thresholds that differ from the global ones, every file twice so that the cross-file linter has something to count
+    import yaml
+    doc = yaml.safe_load(t[cfg])
+    langs = ("python", "typescript", "javascript", "rust")
+    doc["nesting"] = dict({"enabled": True, "max_nesting_depth": 1}, **{lg: {"max_nesting_depth": 9} for lg in langs})
+    doc["srp"] = dict({"enabled": True, "max_methods": 1, "max_loc": 5}, **{lg: {"max_methods": 60, "max_loc": 5000} for lg in langs})
+    doc["dry"] = dict({"enabled": True, "min_duplicate_lines": 3, "min_occurrences": 2, "storage_mode": "memory"}, **{lg: {"min_occurrences": 3} for lg in langs})
+    lcfg = yaml.safe_dump(doc, sort_keys=False)
+    for name, exts in (("langcfg-canonical", (".py", ".ts", ".rs", ".js")), ("langcfg-upper-ext", (".PY", ".TS", ".RS", ".JS")), ("langcfg-mixed-ext", (".Py", ".tS", ".Rs", ".jS"))):
+        files, mapping = {cfg: lcfg}, {}
+        for ext, body in zip(exts, (py, ts, rs, js)):
+            for stem in ("a/mod", "a/mod2"):
+                files[stem + ext] = body
+                if ext != ext.lower():
+                    mapping[stem + ext] = stem + ext.lower()
+        out[name] = (files, mapping)
     return out
 
 
@@ -289,10 +306,12 @@ def run(ctx):
     # (d) twins
     canon = res[[m for m in meta].index(("twin", ("canonical", {})))]
     for (kind, info), r, job in zip(meta, res, jobs):
-        if kind != "twin" or info[0] in ("canonical", "shebang-canonical"):
+        if kind != "twin" or info[0] in ("canonical", "shebang-canonical", "langcfg-canonical"):
             continue
         name, mapping = info
         ref = canon
+        if name.startswith("langcfg-"):
+            ref = res[[m[0] == "twin" and m[1][0] == "langcfg-canonical" for m in meta].index(True)]
         if name == "shebang":
             ref = res[[m[0] == "twin" and m[1][0] == "shebang-canonical" for m in meta].index(True)]
         for cmd in cmds:
